@@ -26,6 +26,7 @@ func drawWorld17(r *rng.R, lib *library) *Case {
 		models = append(models, dm)
 		c.World.Models = append(c.World.Models, dm.spec)
 	}
+	shareProto(r, &c.World, &models)
 	nt := []int{2, 2, 2, 3, 3, 4, 6, 8, 16}[r.Intn(9)]
 	for ti := 0; ti < nt; ti++ {
 		n := r.Range(1, 4)
